@@ -169,7 +169,7 @@ def _run_chunk(arg):
         except Exception:
             r = Res()
             r.ev()
-            r.fail('harness.exception', c, traceback.format_exc()[-1500:],
+            r.fail('raised.unexpected', c, traceback.format_exc()[-1500:],
                    tags=['exception'])
         if r is not None:
             out.merge_packed(r.pack())
@@ -183,7 +183,7 @@ def run_case(mod, checker, case):
     except Exception:
         r = Res()
         r.ev()
-        r.fail('harness.exception', case, traceback.format_exc()[-1500:],
+        r.fail('raised.unexpected', case, traceback.format_exc()[-1500:],
                tags=['exception'])
     return r
 
@@ -233,6 +233,7 @@ def explore(mod, tier, seed, nproc=None, cap_s=None, log=print):
     exhaustive = True
     samples = []
     bounds = {}
+    determinism_checked = []
     ctx = mp.get_context('fork')
     pool = ctx.Pool(nproc, initializer=_init_worker, initargs=(mod.__name__,))
     try:
@@ -245,9 +246,13 @@ def explore(mod, tier, seed, nproc=None, cap_s=None, log=print):
             n = 0
             before = total.evals
 
+            first_case = None
+
             def gen():
-                nonlocal n
+                nonlocal n, first_case
                 for ch in _chunks(st.cases, st.chunk):
+                    if first_case is None and ch:
+                        first_case = ch[0]
                     n += len(ch)
                     for c in ch:
                         c['_checker'] = st.checker
@@ -266,6 +271,13 @@ def explore(mod, tier, seed, nproc=None, cap_s=None, log=print):
             else:
                 for packed in pool.imap_unordered(_run_chunk, gen()):
                     total.merge_packed(packed)
+            if first_case is not None and not st.fresh_worker:
+                # determinism self-check: the first case of the stratum twice in the driver; observations must be identical
+                a = run_case(mod, st.checker, json.loads(json.dumps(first_case, default=_js)))
+                b = run_case(mod, st.checker, json.loads(json.dumps(first_case, default=_js)))
+                if (a.evals, a.clauses, a.nontriv, a.states, len(a.viol)) != (b.evals, b.clauses, b.nontriv, b.states, len(b.viol)):
+                    raise RuntimeError('harness nondeterminism: two executions of the same case differ in stratum %s' % st.name)
+                determinism_checked.append(st.name)
             if st.size is not None and st.size != n:
                 raise RuntimeError(
                     'coverage closure failed in stratum %s: enumerated %d, '
@@ -282,7 +294,8 @@ def explore(mod, tier, seed, nproc=None, cap_s=None, log=print):
         pool.join()
     return total, dict(strata_done=strata_done, strata_skipped=strata_skipped,
                        counts=counts, exhaustive=exhaustive, samples=samples,
-                       bounds=bounds, wall=time.time() - t0, nproc=nproc)
+                       bounds=bounds, wall=time.time() - t0, nproc=nproc,
+                       determinism_checked=determinism_checked)
 
 
 def report(mod, tier, seed, total, meta, log=print):
@@ -317,7 +330,7 @@ def report(mod, tier, seed, total, meta, log=print):
     confirmed = []
     for fp, v in reported:
         chk = v['case'].get('_checker') if isinstance(v['case'], dict) else None
-        if chk is None or v['clause'] == 'harness.exception' and chk is None:
+        if chk is None or v['clause'] == 'raised.unexpected' and chk is None:
             confirmed.append((fp, v))
             continue
         r = run_case(mod, chk, v['case'])
@@ -368,6 +381,7 @@ def write_evidence(mod, tier, seed, total, meta, nviol, extra=None):
         'outcomes_sample': sorted(total.outcomes)[:40],
         'notes': dict(sorted(total.notes.items())),
         'workers': meta['nproc'],
+        'determinism_selfcheck_strata': meta.get('determinism_checked', []),
         'teneva_src': os.environ.get('TENEVA_SRC', '/repo'),
     }
     if mod.LEVEL == 'model_checking':
